@@ -15,7 +15,7 @@ func init() {
 	register("C01", checkC01)
 	describe("C01", Meta{
 		Technique: "symbolic instruction-field algebra (LAYOUT) comparing, per opcode, the bit slices of current_instruction in the Verilog templates and the instr[a:b] slices of Simulate with the fields the Assembler writes; index-source rule for opcode numbering; must-pass-through (path counting) of requirement bookkeeping behind every hardware-optimisation query",
-		Claim:     "Decides structural decode-agreement clauses of C01 for every opcode type: (a) each slice of current_instruction in the opcode's Verilog templates is the opcode field or exactly one field its Assembler writes (all four mode cases, symbolic in all widths), and each instr[a:b] the simulator's Simulate reads is such a field (Harvard mode); (b) the opcode number emitted by the encoder and by the localparam table is the index in the same Op list, with the opcode-bits width; (c) an opcode whose state machine prunes case arms by querying a requirement set (destregs, sourceregs …) records that set on every path of its HLAssemblerNormalize that accepts a line. A wrong bit-slice index, a swapped field or an incomplete register bookkeeping in any of the ~100 templates is reported. (OPKIND) a field decoded in Simulate indexes the VM array of the operand kind the Assembler put there (register / input / output), and a Verilog template that selects on a field with `NAME : begin` labels uses the name function of that kind; (LITWIDTH) a sized literal W'b… of the label tables declares the width its digits are padded to. The semantics of each opcode (ALU, flags, timing), ROM/RAM models and threading are not decided.",
+		Claim:     "Decides structural decode-agreement clauses of C01 for every opcode type: (a) each slice of current_instruction in the opcode's Verilog templates is the opcode field or exactly one field its Assembler writes (all four mode cases, symbolic in all widths), and each instr[a:b] the simulator's Simulate reads is such a field (Harvard mode); (b) the opcode number emitted by the encoder and by the localparam table is the index in the same Op list, with the opcode-bits width; (c) an opcode whose state machine prunes case arms by querying a requirement set (destregs, sourceregs …) records that set on every path of its HLAssemblerNormalize that accepts a line. A wrong bit-slice index, a swapped field or an incomplete register bookkeeping in any of the ~100 templates is reported. (OPKIND) a field decoded in Simulate indexes the VM array of the operand kind the Assembler put there (register / input / output), and a Verilog template that selects on a field with `NAME : begin` labels uses the name function of that kind; (LITWIDTH) a sized literal W'b… of the label tables declares the width its digits are padded to. The semantics of each opcode (ALU, flags, timing), ROM/RAM models and threading are not decided. (MEMO) no method of the machine-description records keeps a computed width in a receiver field that nothing else stores (a memo that is never invalidated while front-ends assign the parameters directly).",
 		Note:      "Simulate is compared under mode 'ha' only (VM.Step fetches from Program.Slocs: the simulator is Harvard by construction). Single-bit slices [A] are accepted at the offset of a field whose width can be 1.",
 		DesignRef: "DESIGN.md §1.5, §2 C01",
 	})
@@ -203,6 +203,7 @@ func checkC01(r *core.Run) {
 	c01LiteralWidth(r, prog)
 	c01OpNumbering(r, prog)
 	c01HwOptBookkeeping(r, prog)
+	c01Memo(r, prog)
 }
 
 // ---- (b) opcode numbering ---------------------------------------------------------------
